@@ -277,7 +277,7 @@ var resultWords []uint64
 // result than calling it on distinct objects holding the same values; runKernel appends it to the answer.
 var aliasFault string
 
-func sameF(a, b *secp.FieldVal) bool { return secp.VerifFieldRaw(a) == secp.VerifFieldRaw(b) }
+func sameF(a, b *secp.FieldVal) bool   { return secp.VerifFieldRaw(a) == secp.VerifFieldRaw(b) }
 func sameS(a, b *secp.ModNScalar) bool { return secp.VerifScalarRaw(a) == secp.VerifScalarRaw(b) }
 
 // checkFieldAlias2: r.op(a, b) must not depend on r being the same object as a and/or b
